@@ -51,7 +51,15 @@ type concReplay struct {
 // runSchedule executes one schedule of a scenario.
 func runSchedule(sc *concScenario, prefix []int) (*vsched.Execution, *concExec) {
 	x := &concExec{data: map[string]any{}}
-	ex := vsched.Run(vsched.Config{Mode: vsched.ModeConc, Prefix: prefix, MaxClockFirings: sc.maxClock}, func() { sc.body(x) })
+	ex := vsched.Run(vsched.Config{Mode: vsched.ModeConc, Prefix: prefix, MaxClockFirings: sc.maxClock, RecordPoints: os.Getenv("VERIF_DEBUG") != ""}, func() { sc.body(x) })
+	early := 0
+	for i := range ex.Points {
+		p := &ex.Points[i]
+		if p.Alts[p.Chosen].Gid == -1 && len(p.Alts) > 1 {
+			early++ // the clock was advanced although a goroutine could run (models an arbitrarily slow goroutine)
+		}
+	}
+	x.data["earlyClock"] = early
 	if sc.post != nil && ex.Outcome != vsched.Diverged {
 		sc.post(x)
 	}
@@ -230,6 +238,20 @@ func concReplayer(scenarios func() []*concScenario) func([]byte) string {
 				continue
 			}
 			ex, x := runSchedule(sc, r.Prefix)
+			if os.Getenv("VERIF_DEBUG") != "" {
+				fmt.Fprintf(os.Stderr, "outcome=%s points=%d clock=%d blocked=%v\nobs=%v\nfailures=%v\n", ex.Outcome, len(ex.Points), ex.ClockFirings, ex.Blocked, x.obs, x.failures)
+				var tr []string
+				for i, p := range ex.Points {
+					tr = append(tr, fmt.Sprintf("%d:%s/%d", i, p.Desc, len(p.Alts)))
+					if p.Chosen != 0 {
+						tr[len(tr)-1] += fmt.Sprintf("*%d", p.Chosen)
+					}
+				}
+				fmt.Fprintln(os.Stderr, strings.Join(tr, " "))
+				if d, ok := x.data["debug"].(string); ok {
+					fmt.Fprintln(os.Stderr, d)
+				}
+			}
 			switch ex.Outcome {
 			case vsched.Deadlock, vsched.Panicked, vsched.StepLimit, vsched.Diverged:
 				return fmt.Sprintf("%s: %s %v %s", sc.name, ex.Outcome, ex.Blocked, firstLines(ex.Panics, 6))
